@@ -26,6 +26,9 @@ import (
 	"verif/harness/vh"
 )
 
+// confirmDeadline: how long a suspected hang is given when it is run again alone
+const confirmDeadline = 150 * time.Second
+
 const childLimitBytes = 2 << 30 // RLIMIT_AS of the child (Go needs ~1 GiB of address space to run at all)
 
 func shortFunc(fn string) string {
@@ -237,6 +240,12 @@ func (l *lockedBuf) String() string { l.mu.Lock(); defer l.mu.Unlock(); return s
 func runChildSeq(self string, k, c int64, cases []hcase, lo, hi int, res []hres, perCase time.Duration) {
 	next := lo
 	for next < hi {
+		for next < hi && isDead("typ:"+cases[next].Typ) {
+			next++
+		}
+		if next >= hi {
+			return
+		}
 		cmd := exec.Command(self, "-child", strconv.FormatInt(k, 10), strconv.FormatInt(c, 10))
 		cmd.Env = append(os.Environ(), "GOMEMLIMIT=256MiB", "GOTRACEBACK=single", "GOMAXPROCS=2")
 		stdin, _ := cmd.StdinPipe()
@@ -250,6 +259,9 @@ func runChildSeq(self string, k, c int64, cases []hcase, lo, hi int, res []hres,
 		go func() {
 			w := bufio.NewWriterSize(stdin, 1<<20)
 			for i := first; i < hi; i++ {
+				if isDead("typ:" + cases[i].Typ) {
+					continue // a hang of this type's decoder is established: its remaining cases are skipped
+				}
 				fmt.Fprintf(w, "%d %s %s\n", i, cases[i].Kind, cases[i].Hex)
 			}
 			w.Flush()
@@ -295,6 +307,10 @@ func runChildSeq(self string, k, c int64, cases []hcase, lo, hi int, res []hres,
 		}
 		cmd.Process.Kill()
 		cmd.Wait()
+		// cases of a type whose hang is established are not fed: step over them
+		for next < hi && res[next].class == "" && isDead("typ:"+cases[next].Typ) {
+			next++
+		}
 		if next >= hi {
 			return
 		}
@@ -305,6 +321,14 @@ func runChildSeq(self string, k, c int64, cases []hcase, lo, hi int, res []hres,
 		}
 		if timedOut {
 			res[i] = hres{"timeout", 0, "-", 0}
+			if perCase < confirmDeadline { // confirm once, alone and patiently; then the type is dead
+				r2 := make([]hres, 1)
+				runChildSeq(self, k, c, cases[i:i+1], 0, 1, r2, confirmDeadline)
+				res[i] = r2[0]
+				if r2[0].class == "timeout" {
+					markDead("typ:" + cases[i].Typ)
+				}
+			}
 		} else {
 			st := errb.String()
 			if strings.Contains(st, "harness:") || strings.Contains(st, "child:") {
@@ -320,7 +344,7 @@ func runChildSeq(self string, k, c int64, cases []hcase, lo, hi int, res []hres,
 }
 
 // guardPatient runs f with a watchdog that only bounds hangs: a first deadline of 2 s, and — the
-// machine may be busy — a further 60 s before the call is declared hung.  The verdict does not
+// machine may be busy — a further 40 s before the call is declared hung.  The verdict does not
 // depend on how fast the machine is, only on whether the call ever returns.
 func guardPatient(f func()) vh.Outcome {
 	ch := make(chan vh.Outcome, 1)
@@ -333,7 +357,7 @@ func guardPatient(f func()) vh.Outcome {
 	select {
 	case o := <-ch:
 		return o
-	case <-time.After(60 * time.Second):
+	case <-time.After(40 * time.Second):
 		return vh.Outcome{Timeout: true}
 	}
 }
@@ -348,9 +372,9 @@ func runChildren(self string, k, c int64, cases []hcase, workers int, perCase ti
 		if again >= 6 {
 			break
 		}
-		if res[i].class == "timeout" || (res[i].class == "fatal" && strings.HasPrefix(res[i].site, "crash:")) {
+		if res[i].class == "fatal" && strings.HasPrefix(res[i].site, "crash:") {
 			again++
-			r2 := runChildrenOnce(self, k, c, cases[i:i+1], 1, 240*time.Second)
+			r2 := runChildrenOnce(self, k, c, cases[i:i+1], 1, confirmDeadline)
 			res[i] = r2[0]
 		}
 	}
@@ -382,5 +406,10 @@ func runChildrenOnce(self string, k, c int64, cases []hcase, workers int, perCas
 		}(lo, hi)
 	}
 	wg.Wait()
+	for i := range res {
+		if res[i].class == "" && isDead("typ:"+cases[i].Typ) {
+			res[i] = hres{"skipped", 0, "-", 0}
+		}
+	}
 	return res
 }
